@@ -56,7 +56,9 @@ def run(prog, chk):
             I.write(p, lvalue_key(a1["e"], I.fn), 777)
             return 0
 
-        inl = inline_model(prog, {"KSI_convertExtenderStatusCode", "KSI_Integer_getUInt64"})
+        conv = prog.fn("KSI_convertExtenderStatusCode", "net.c")
+        helpers = {n["fn"] for b, i, n in conv.calls() if n.get("fn") and any(g.unit == conv.unit for g in prog.functions.get(n["fn"], []))}
+        inl = inline_model(prog, {"KSI_convertExtenderStatusCode", "KSI_Integer_getUInt64"} | helpers)
         ov = {"KSI_Integer_equals": equals, "KSI_Integer_equalsUInt": equalsUInt,
               "KSI_CalendarHashChain_calculateAggregationTime": calcTime,
               "KSI_convertExtenderStatusCode": lambda I, p, node, args: inl(I, p, node, "KSI_convertExtenderStatusCode", args, None),
